@@ -7,6 +7,7 @@ package harness
 import (
 	"encoding/json"
 	"fmt"
+	"strings"
 	"sync"
 	"testing"
 	"time"
@@ -26,14 +27,27 @@ type c15cCase struct {
 	Reopen     string `json:"reopen"`      // none | connect | open: what the application does 5 s after the server is back
 	Emits      int    `json:"emits"`       // events emitted right after the Close (buffered)
 	SecondLoss bool   `json:"second_loss"` // after a reopen: lose the connection again, the manager must reconnect by itself
+	// Reopen "restart-down-connect" / "restart-down-open": GapUs after the Close, while the server is still down, the application calls Connect() /
+	// Open() again; with ReconnectionAttempts = Attempts (1..3) the new round makes exactly that many attempts and gives up once
+	Attempts int `json:"attempts"`
+	GapUs    int `json:"gap_us"`
 }
 
 func evalC15c(c c15cCase) (f *Failure, nontrivial bool) {
 	class := c.Transport + "," + c.Reopen
-	fail := func(clause, detail string) *Failure {
-		return &Failure{Property: "C15", Check: c15cCheck, Clause: clause, Class: class, Detail: detail, Case: c}
+	check := c15cCheck
+	if strings.HasPrefix(c.Reopen, "restart-down") {
+		// A new Open waits on a mutex for the old reconnection round, which sleeps in its back-off delay: virtual time cannot pass meanwhile
+		// (DESIGN.md §2.2), so this scenario runs on the real clock. Its oracle counts events, it measures nothing.
+		check = c15rCheck
+		old := realClock
+		realClock = true
+		defer func() { realClock = old }()
 	}
-	journal(c15cCheck, class, c)
+	fail := func(clause, detail string) *Failure {
+		return &Failure{Property: "C15", Check: check, Clause: clause, Class: class, Detail: detail, Case: c}
+	}
+	journal(check, class, c)
 	var res *Failure
 	msg := runRig(rigOpts{}, func(r *rig) {
 		start := time.Now()
@@ -55,15 +69,22 @@ func evalC15c(c c15cCase) (f *Failure, nontrivial bool) {
 			cfg.ReconnectionDelay = &d
 			cfg.ReconnectionDelayMax = &mx
 			cfg.RandomizationFactor = &zero
+			cfg.ReconnectionAttempts = uint32(c.Attempts)
 		})
 		rec := func(kind string) {
 			mu.Lock()
 			events = append(events, fmt.Sprintf("%s@%v", kind, time.Since(start)))
 			mu.Unlock()
 		}
-		m.OnReconnectAttempt(func(uint32) { rec("attempt") })
+		var attemptNos []uint32
+		failedN := 0
+		m.OnReconnectAttempt(func(n uint32) { rec("attempt"); mu.Lock(); attemptNos = append(attemptNos, n); mu.Unlock() })
+		m.OnReconnectFailed(func() { mu.Lock(); failedN++; mu.Unlock() })
 		m.OnReconnect(func(uint32) { rec("reconnect") })
 		m.OnOpen(func() { rec("open") })
+		m.OnClose(func(reason sio.Reason, err error) { rec("close:" + string(reason)) })
+		m.OnError(func(err error) { rec("error") })
+		m.OnReconnectFailed(func() { rec("failed") })
 		cli := m.Socket("/", nil)
 		cli.Connect()
 		settle(time.Second)
@@ -76,6 +97,31 @@ func evalC15c(c c15cCase) (f *Failure, nontrivial bool) {
 		time.Sleep(time.Duration(c.CloseAtUs) * time.Microsecond)
 		m.Close()
 		closedAt := time.Since(start)
+		if strings.HasPrefix(c.Reopen, "restart-down") {
+			// stopped and started again while the old round may still be asleep in its back-off delay, the server staying down: what the manager
+			// reports from here on is one round of exactly Attempts attempts, numbered 1.., and reconnect_failed once
+			time.Sleep(time.Duration(c.GapUs) * time.Microsecond)
+			mu.Lock()
+			attemptNos, failedN = nil, 0
+			mu.Unlock()
+			if c.Reopen == "restart-down-open" {
+				m.Open()
+			} else {
+				cli.Connect()
+			}
+			time.Sleep(time.Duration(c.Attempts+3)*mx + 3*time.Second)
+			mu.Lock()
+			defer mu.Unlock()
+			want := make([]uint32, c.Attempts)
+			for i := range want {
+				want[i] = uint32(i + 1)
+			}
+			if fmt.Sprint(attemptNos) != fmt.Sprint(want) || failedN != 1 {
+				res = fail("exactly-n-attempts-then-failed-once", fmt.Sprintf("Manager.Close() %d us after the loss, %s %d us later with the server still down (ReconnectionAttempts %d, delay %v, max %v): reconnect_attempt reported %v, reconnect_failed %d times; want %v and once (Close at %v; everything the manager reported: %v)",
+					c.CloseAtUs, c.Reopen, c.GapUs, c.Attempts, d, mx, attemptNos, failedN, want, closedAt, events))
+			}
+			return
+		}
 		for i := 0; i < c.Emits; i++ {
 			cli.Emit("e", i)
 		}
@@ -170,7 +216,34 @@ func TestC15_CloseStops(t *testing.T) {
 	})
 }
 
+const c15rCheck = "c15-restart-while-down"
+
+func TestC15RC_RestartWhileDown(t *testing.T) {
+	setT(t)
+	defer startWatchdog(t, 90*time.Second)()
+	ev := NewEv(t, "C15", c15rCheck, "REAL CLOCK over the in-memory network (a new Open waits on a mutex for the old round, which the virtual clock cannot pass): the connection is lost (dials refused), "+
+		"Manager.Close() falls into the running reconnection round, 0 us .. 2 x max later the application calls Connect() or Open() again, the server staying down, ReconnectionAttempts 1..3, delay 20 / 60 ms; "+
+		"oracle (counts only, 3 s beyond the longest possible round): reconnect_attempt is reported with exactly the numbers 1..N and reconnect_failed once; non-trivial = every case")
+	rapidGuard(t, "C15", c15rCheck)
+	runRapid(t, c15rCheck, tierN(32, 1600), func(t *rapid.T) {
+		c := c15cCase{Transport: rapid.SampledFrom([]string{"polling", "websocket"}).Draw(t, "transport"), DelayMs: rapid.SampledFrom([]int{20, 60}).Draw(t, "delay"),
+			Reopen: rapid.SampledFrom([]string{"restart-down-connect", "restart-down-open"}).Draw(t, "restartHow"), Attempts: rapid.IntRange(1, 3).Draw(t, "attempts")}
+		c.MaxMs = c.DelayMs * rapid.SampledFrom([]int{1, 2}).Draw(t, "maxFactor")
+		c.GapUs = rapid.SampledFrom([]int{0, 1, 1000, c.DelayMs * 500, c.MaxMs * 2000}).Draw(t, "gap")
+		c.CloseAtUs = rapid.IntRange(0, c.Attempts*c.MaxMs*1000).Draw(t, "closeAtDown") // while the first round is still running
+		ev.Case(c, true, c.Transport+","+c.Reopen)
+		ev.Sample(c.Reopen, c)
+		if f, _ := evalC15c(c); f != nil {
+			FailRapid(t, *f)
+		}
+	})
+}
+
 func init() {
+	registerReplay(c15rCheck, func(raw json.RawMessage) *Failure {
+		f, _ := evalC15c(decodeCase[c15cCase](raw))
+		return f
+	})
 	registerReplay(c15cCheck, func(raw json.RawMessage) *Failure {
 		f, _ := evalC15c(decodeCase[c15cCase](raw))
 		return f
